@@ -39,11 +39,19 @@ def gen_project(r, idx, gen_value, sandbox="no"):
     wl_add = sorted(r.sample(["WL1", "WL2", "DECOY2", "G1"], r.randrange(0, 3)))
     wl_remove = sorted(r.sample(["TERM", "HOME", "WL2", "USER", "SHELL"], r.randrange(0, 3)))
     cli_wl = sorted(r.sample(["WL2", "CLI1", "TERM"], r.randrange(0, 2)))
+    if r.random() < 0.5:
+        # the same name added and removed in one file: `whitelistRemove` is applied after `whitelist` (documented priority)
+        both = r.choice(["WL1", "WL2"])
+        wl_add = sorted(set(wl_add) | {both})
+        wl_remove = sorted(set(wl_remove) | {both})
     # LC_ALL: with an empty locale CPython coerces LC_CTYPE=C.UTF-8 into its own (= Bob's) environment at start-up
     host = {"PATH": r.choice(["/usr/bin:/bin", "/usr/local/bin:/usr/bin:/bin"]), "LC_ALL": "C.UTF-8"}
     for n in r.sample(["DECOY1", "DECOY2", "SECRET_TOKEN", "WL1", "WL2", "CLI1", "TERM", "USER", "SHELL", "G1", "E1", "P1", "D1", "U1", "LANG_X"],
                       r.randrange(3, 9)):
         host[n] = gen_value(r)
+    for n in ("WL1", "WL2"):
+        if r.random() < 0.7:
+            host.setdefault(n, gen_value(r))
     case = {
         "idx": idx, "sandbox": sandbox,
         "default_env": {n: gen_value(r) for n in r.sample(names_g, r.randrange(0, 4))},
